@@ -268,7 +268,8 @@ func (r *SparseInt32Vector) VdivV(a, b ConstVector) Vector {
   for i := 0; i < n; i++ {
     c1 := a.ConstAt(i)
     c2 := b.ConstAt(i)
-    if c1.GetFloat64() != 0.0 || c2.GetFloat64() == 0.0 {
+    // 0/x is zero, unless x is zero or NaN
+    if v := c2.GetFloat64(); c1.GetFloat64() != 0.0 || v == 0.0 || v != v {
       r.At(i).Div(c1, c2)
     } else {
       if r.ConstAt(i).GetFloat64() != 0.0 {
